@@ -421,3 +421,9 @@ package ttlv
 //@   requires enc != nil && enc.extension != nil && enc.w != nil
 //@   ensures enc.extension.version == nil
 //@   modifies enc.extension.version
+
+// ---------------------------------------------------------------------------
+// element-level codec model (mirror lemmas, C01): set when a structure reader returns successfully with
+// children left unread
+
+//@ ghostvar tapeDropped bool
